@@ -83,7 +83,17 @@ def writable(obj):
         return False
 
 
-def corrupt_leaf(sym, fmt, path, rule, maxlen, getter, k):
+def load_via(sym, obj, text, via):
+    """hand the text to the reader as a string, as a local file, or as a remote one (HTTP)"""
+    if via == "loads":
+        obj.loads(text)
+        return
+    root, bits = sym.symbolic_fs({"": None, "doc.json": text}, "docs", via == "url")
+    sym.assume(bits["doc.json"])
+    obj.load(root + "/doc.json")
+
+
+def corrupt_leaf(sym, fmt, path, rule, maxlen, getter, k, via="loads"):
     """one leaf takes any value outside its documented domain: the load fails, or what it yields is valid again"""
     doc = base_doc(fmt, k)
     holder, key = walk(doc, path)
@@ -101,7 +111,7 @@ def corrupt_leaf(sym, fmt, path, rule, maxlen, getter, k):
     sym.cover("corrupted")
     obj = CLASSES[fmt]()
     try:
-        obj.loads(json.dumps(doc))
+        load_via(sym, obj, json.dumps(doc), via)
         raised = False
     except Exception:
         raised = True
@@ -109,7 +119,11 @@ def corrupt_leaf(sym, fmt, path, rule, maxlen, getter, k):
         sym.check("rejected-or-valid-after-load", True)
         return
     sym.cover("accepted-after-normalisation")
-    loaded = fetch(obj, getter)
+    try:
+        loaded = fetch(obj, getter)
+    except (KeyError, IndexError, AttributeError, TypeError):
+        sym.check("a-load-that-returns-has-loaded-the-document", False)
+        return
     lk = kind_of(loaded)
     ok = in_domain(sym, rule, lk, loaded)
     sym.check("rejected-or-valid-after-load", ok is None or ok)
@@ -351,7 +365,8 @@ def jobs(tier, seed):
     def leaf(fmt, path, rule, maxlen, getter):
         if rule == "bool-coerced":
             return
-        out.append({"harness": "corrupt_leaf", "params": {"fmt": fmt, "path": path, "rule": rule, "maxlen": maxlen, "getter": getter, "k": k}})
+        via = ["loads", "loads", "path", "loads", "url"][(len(out) + seed) % 5] if not big else ["loads", "path", "url"][(len(out) + seed) % 3]
+        out.append({"harness": "corrupt_leaf", "params": {"fmt": fmt, "path": path, "rule": rule, "maxlen": maxlen, "getter": getter, "k": k, "via": via}})
     for fmt in CLASSES:
         for a, r, m in COMPOSE_LEAVES:
             leaf(fmt, ["payload", "compose", a], r, m, ["compose", a])
@@ -424,6 +439,7 @@ META = {
     "expected_covers": {"corrupt_leaf": ["corrupted"], "header_type": ["loaded"], "header_version": ["loaded"], "delete_key": ["loaded"],
                         "images_identity_collision": ["loaded"], "tree_corrupt_option": ["corrupted"], "tree_child_misaligned": ["corrupted"], "tree_platforms": ["corrupted"], "tree_header": ["loaded"], "tree_version": ["loaded"], "tree_delete": ["loaded"]},
     "assumptions": [
+        "documents reach the reader through loads(text), load(path) on the symbolic file system, or load('http://...') answered by the urlopen model (rotating per job)",
         "base documents are produced by the real writer from valid objects (nested/layered-product variants, three images, one payload entry); one corruption at a time",
         "oracle: the load raises, or the value found in the loaded object is again inside the documented domain (the readers normalise e.g. numeric strings, "
         "case of release types, empty labels) - i.e. nothing obtained from a successful load violates what writing enforces",
